@@ -134,7 +134,11 @@ def our_key(our: dict) -> tuple:
 # ------------------------------------------------------------------------------------------------
 
 PEER_NH = [(1, 1, 2), (1, 128, 2), (2, 1, 1)]
-STYLES = ['one-per-param', 'all-in-one', 'extended', 'extended-len1']
+# 'pad<N>': the classic RFC 4271 layout, one capability per parameter, with one more parameter holding an unknown
+# capability sized so that the optional parameters are exactly N octets long (255 is the largest classic length and
+# is also the first octet of the RFC 9072 layout: the second octet, parameter type 2 here, tells them apart)
+STYLES = ['one-per-param', 'all-in-one', 'extended', 'extended-len1', 'pad253', 'pad254', 'pad255']
+PAD_CAP = 98
 ORDERS = ['canon', 'reversed', 'rotated', 'dup-all', 'dup-reversed']
 RR_KINDS = ['rr+err', 'none', 'rr', 'err', 'rr128']
 PEER_DEFAULT = dict(ver=4, asf=65002, asn4=(65002,), hold=90, rid='9.9.9.9', fams=15, ap=(3, 3, 3), xnh=3, rr='rr+err',
@@ -206,6 +210,16 @@ def peer_body(pc: dict) -> bytes:
     caps = [token_cap(t) for t in pc['caps']]
     if pc['style'] == 'extended-len1':
         return wire.encode_open_9072(pc['asf'], pc['hold'], pc['rid'], caps, version=pc['ver'], non_ext_len=1)
+    if pc['style'].startswith('pad'):
+        want = int(pc['style'][3:])
+        have = sum(4 + len(v) for _, v in caps)
+        k = want - have - 4
+        if 0 <= k <= 251:
+            caps = caps + [(PAD_CAP, bytes(k))]
+        body = wire.encode_open(pc['asf'], pc['hold'], pc['rid'], caps, version=pc['ver'], style='one-per-param')
+        if 0 <= k <= 251 and body[9] != want:
+            raise core.HarnessError(f'padding to {want} octets of optional parameters gave {body[9]}')
+        return body
     return wire.encode_open(pc['asf'], pc['hold'], pc['rid'], caps, version=pc['ver'], style=pc['style'])
 
 
@@ -710,7 +724,7 @@ BROKEN_OURS = dict(OUR_DEFAULT)
 
 def broken_cases():
     out = []
-    for style in STYLES:
+    for style in STYLES[:4]:  # the padded layouts are whole-length boundary cases, not damaged here
         for name in MUTATIONS:
             for rich in (True, False):
                 p = dict(PEER_DEFAULT, style=style)
